@@ -60,7 +60,7 @@ def main():
             if r.returncode == 1 and "VIOLATION property=" in r.stdout:
                 verdict = "CAUGHT"
             elif r.returncode == 0:
-                verdict = "MISSED"
+                verdict = "MISSED" if not m.get("equivalent") else "not-caught(equivalent-mutant)"
             else:
                 verdict = "HARNESS-ERROR rc=%d" % r.returncode
             line = "%s %s %s %.0fs %s" % (m["id"], m["property"], verdict, dt,
